@@ -73,7 +73,7 @@ class Gen:
             node['retry'] = retry
         if will_fail:
             style = rng.random()
-            exc = rng.choice(['E1', 'E1', 'E2', 'EOther', 'E1Sub'])
+            exc = rng.choice(['E1', 'E1', 'E2', 'EOther', 'E1Sub', 'EFalsy'])
             if style < 0.45:
                 node['plan']['fail'] = ['ALWAYS', exc]
             else:
@@ -223,7 +223,7 @@ class Gen:
             # make early candidates fail often so that fallbacks are exercised
             node = self.nodes[c]
             if i < n - 1 and rng.random() < 0.6 and not node['plan'].get('fail'):
-                node['plan']['fail'] = ['ALWAYS', rng.choice(['E1', 'E2', 'EOther'])]
+                node['plan']['fail'] = ['ALWAYS', rng.choice(['E1', 'E2', 'EOther', 'EFalsy'])]
                 node.pop('retry', None)
                 if rng.random() < 0.5:
                     ins = list(self.p['inputs'])
@@ -332,6 +332,11 @@ class Gen:
         if rng.random() < 0.5:
             want = {str(v): rng.randint(0, mx + 1) for v in self.p['inputs']}
         dest['plan'].update({'start': sid, 'want_iter': want})
+        if rng.random() < self.p.get('p_falsy_ad', 0.15):
+            # the payload of next_iteration() is falsy (0, '', False, ()): still has to reach the start node
+            dest['plan'].pop('want_iter')
+            dest['plan']['iter_by_attempt'] = rng.randint(1, mx)
+            dest['plan']['falsy_ad'] = [rng.choice([0, '', False, []])]
         # nodes really on a dependency path start -> dest (dangling mids are not part of the subgraph)
         on_path = set()
         st = [did]
